@@ -33,6 +33,10 @@ SPECS = [
     ("str", "t ~ 0 + C(A, contr.sum) + a | C(A, contr.sum) + z", {"A", "z"}),
     ("str", "t ~ 0 + C(A, contr.helmert) | a + C(A, contr.helmert):b", {"A"}),
     ("kw", {"first": "0 + C(A, contr.sum) + b + C(A, contr.sum):b", "second": "C(A, contr.sum) + t"}, {"A"}),
+    # a transform that MAKES nulls (lag) of a column that is a plain factor of another part: its nulls belong to the joint drop set
+    ("str", "t ~ z | lag(z) + a", {"z"}, [("z", 1)]),
+    ("str", "t + w ~ lag(w, 2):a | w + b", {"w"}, [("w", 2)]),
+    ("kw", {"first": "z + t", "second": ("a", "lag(z) + b")}, {"z"}, [("z", 1)]),
 ]
 
 
@@ -82,7 +86,8 @@ def cells_of(m):
 def check_config(cfg, numeric: dict, same, tag_eq, symbolic: bool):
     from formulaic import model_matrix
 
-    kind, spec, nvars = SPECS[cfg["spec_id"]]
+    kind, spec, nvars, *rest = SPECS[cfg["spec_id"]]
+    lags = rest[0] if rest else []
     zs, ws, as_ = set(NULL_SETS[cfg["z"]]), set(NULL_SETS[cfg["w"]]), set(NULL_SETS[cfg["A"]])
     df = na.make_frame(N, zs, ws, as_, cfg["index"])
     ctx = None
@@ -96,6 +101,9 @@ def check_config(cfg, numeric: dict, same, tag_eq, symbolic: bool):
     problems, claims = [], []
     F = make_formula(kind, spec)
     nulls = na.null_rows(nvars, zs, ws, as_)
+    for var, off in lags:  # lag(v, k) is null in the first k rows and k rows after every null of v
+        src = zs if var == "z" else ws
+        nulls = set(nulls) | set(range(off)) | {r + off for r in src if r + off < N}
     kept = [k for k in range(N) if k not in nulls]
     mm = F.get_model_matrix(df, context=ctx, output=out, **mkw)
     if skeleton(mm) != skeleton(F):
@@ -142,7 +150,7 @@ def check_config(cfg, numeric: dict, same, tag_eq, symbolic: bool):
             problems.append(("joint-regeneration-differs", f"part {path}: structured spec regenerates {lj}/{cj.shape}, original {lo}/{co.shape}"))
         else:
             claims.append((f"part {path} == joint regeneration by the structured spec", _all(same, co, cj)))
-    if len(kept) >= 2:
+    if len(kept) >= 2 and not lags:  # (lag is defined across rows: a row subset is a different question)
         sub = kept[:2]
         df2 = df.iloc[sub]
         if symbolic:
